@@ -67,6 +67,10 @@ CLAIMS = {
          "Structural necessary conditions: the only nondeterminism sources reachable from Search.Go are the wall clock (whose values reach only the info line, Counters.Time and the soft-limit test), the two channel polls and the output hand-off; no package-level state is written; the node counter is only incremented, under Nodes == -1 or Counters.Nodes < Nodes; soft limits are consulted only between iterations. Equality of two runs is not decided.",
          "VTA over-approximates dynamic calls; std callees outside time/rand/runtime/os are taken to be deterministic.",
          "DESIGN.md §3 C08"),
+ "C18": ("SSA loop model of the swap algorithm (tests, back edges, phis), piece-attack pairing, must-dataflow for least-valuable-attacker order with fixpoint meaning of the start markers, parity/balance evaluators for the early exits, occupancy dataflow for x-ray refreshes and entry bookkeeping",
+         "Structural necessary conditions of the exchange evaluation: every attack pattern is paired with the right piece kinds and pawn colour; attackers are tried in non-decreasing value order with the king last and only when no enemy attacker remains; each branch books the tested kind's value, removes exactly one attacker bit and exits by the same parity rule; diagonals are re-scanned after pawn/bishop/queen captures and lines after rook/queen captures with the updated occupancy; mover and en-passant victim leave the occupancy at the right squares; promotion value is added to gain and risk; consumers pass a threshold <= 0 and prune only losing captures. Equality with the capture-sequence minimax for concrete positions and monotonicity in the threshold are not decided.",
+         "Trusts go/ssa; PieceValues literal must be immutable (checked).",
+         "DESIGN.md §3 C18, §3.0"),
 }
 
 NOT_YET = "no static rule of DESIGN.md §3 for this property is built in this revision yet; not claimed"
